@@ -72,6 +72,10 @@ class C13World(object):
                     ops.append(rng.choice([d['name'] for d in deps[-3:]]))
                 else:
                     ops.append(rng.choice(pool))
+            if text == '{0}/{1}':
+                # keep the author's configuration well-defined: divide by an independent variable
+                # only (a dependent such as v0/v0-1 would be zero)
+                ops[1] = rng.choice(ind)
             deps.append({'name': 'd%d' % j, 'form': fi, 'ops': ops})
         if vector and deps:
             deps.append({'name': 'dw', 'form': -1, 'ops': ['w']})
